@@ -257,16 +257,33 @@ func (r *Run) dischargeBatch(obs []*Ob) {
 			}
 		}
 	}
-	// second opinions
-	for i, ob := range obs {
-		if ob.Diff != "" && r.Thorough() && (results[i].Status == smt.Sat || results[i].Status == smt.Unsat) && results[i].Dur > 0 {
+	// second opinions (thorough tier): a bounded sample per run, in parallel, short timeout; a second
+	// solver that does not answer in time simply gives no second opinion
+	if r.Thorough() {
+		var dq []*smt.Query
+		var di []int
+		for i, ob := range obs {
+			if ob.Diff == "" || !(results[i].Status == smt.Sat || results[i].Status == smt.Unsat) || results[i].Dur <= 0 {
+				continue
+			}
+			if r.diffs+len(dq) >= 400 || time.Since(r.t0) > r.budget()/2 {
+				break
+			}
 			q2 := *qs[i]
 			q2.Solver = ob.Diff
 			q2.Values = nil
-			r2 := r.pool.Solve(&q2)
-			r.diffs++
-			if (r2.Status == smt.Sat || r2.Status == smt.Unsat) && r2.Status != results[i].Status {
-				r.Infra("solvers disagree on %s: %s=%s %s=%s", ob.Name, results[i].Solver, results[i].Status, r2.Solver, r2.Status)
+			q2.Timeout = 20 * time.Second
+			dq = append(dq, &q2)
+			di = append(di, i)
+		}
+		if len(dq) > 0 {
+			rs := r.pool.SolveAll(dq)
+			r.diffs += len(dq)
+			for k, r2 := range rs {
+				i := di[k]
+				if (r2.Status == smt.Sat || r2.Status == smt.Unsat) && r2.Status != results[i].Status {
+					r.Infra("solvers disagree on %s: %s=%s %s=%s", obs[i].Name, results[i].Solver, results[i].Status, r2.Solver, r2.Status)
+				}
 			}
 		}
 	}
